@@ -706,8 +706,14 @@ func Spec(p *Params) *clustermc.Spec {
 		Depth:  p.Depth,
 		New:    func() interface{} { return New(p) },
 		Events: func(s interface{}) []Ev { return p.Alpha },
-		Apply:  func(s interface{}, e Ev) []Fail { return s.(*Sys).Apply(e) },
-		Canon:  func(s interface{}) string { return s.(*Sys).Canon() },
+		Apply: func(s interface{}, e Ev) []Fail {
+			fs := s.(*Sys).Apply(e)
+			// asynchronous replication: what the step started is delivered before the state is
+			// looked at (the mirror then has to hold exactly as with synchronous replication)
+			s.(*Sys).Cl.DeliverAsync()
+			return fs
+		},
+		Canon: func(s interface{}) string { return s.(*Sys).Canon() },
 		Check: func(s interface{}) []Fail {
 			sys := s.(*Sys)
 			var fs []Fail
